@@ -1,0 +1,7 @@
+//go:build verif
+
+package nilness
+
+// VerifLattice exposes the (unexported) nilness semilattice so that the external verification
+// harness can drive it through dfa.DenseMapLattice and the dense solver.
+type VerifLattice = lattice
